@@ -579,6 +579,7 @@ static ssize_t ustream_read_chars(void *char_source, UChar *dest, ssize_t count,
                 if (bytes_read < ustream->buffer_size) {
                     if (ferror(ustream->byte_stream) != 0) {
                         /* I/O error */
+                        *error_code = CIF_ERROR;
                         return -1;
                     } else {
                         /* end-of-file encountered */
